@@ -6,6 +6,7 @@ Property theorems only (model: Model/ParserRunFineChan.lean; lemmas: Lemmas/Pars
 -/
 import VaxisModel.Lemmas.ParserRunFineChan
 import VaxisModel.Props.C08Fine
+import VaxisModel.Props.C08Spec
 
 namespace VaxisModel.Props.C08FineChan
 open VaxisModel.Model.ParserTable VaxisModel.Model.Parser VaxisModel.Model.ParserRun VaxisModel.Model.ParserRunFine
@@ -90,6 +91,39 @@ theorem fchan_no_deadlock (T : Table) (hT : TimerOk T) (cap : Nat) (hcap : 0 < c
     (FCSys.step T cap s (.stmt .main)).isSome = true ∨ (∃ i, (FCSys.step T cap s (.stmt (.cb i))).isSome = true) ∨
     (FCSys.step T cap s .send).isSome = true ∨ (FCSys.step T cap s .recv).isSome = true :=
   chan_no_deadlock T cap hcap s (run_proj T hT cap ls FCSys.init s (CI_init cap) h).1 h1 h2
+
+/-- **Three layers composed: what the consumer receives is what the Spec prescribes.**  The parser's
+    table, any channel capacity, any interleaving of single statements of all goroutines with blocking
+    emits, sends and receives: whenever the main goroutine is at the `select`, blocked in the read or
+    has returned, there is a schedule of atomic life-cycle labels (reads, end of input, `Close()`,
+    timer firings, late callbacks) for which the reference machine of `Spec/VT500.lean` prescribes
+    exactly the items received so far followed by those still queued (`error` reports dropped): runes
+    through the VT500 machine, the Escape key exactly at up-to-date timer firings, the open control
+    string at end of input, one `EOF{}`.  (`fchan_refines_fine` ∘ `fine_refines_atomic` ∘
+    `lifecycle_refines_spec`.) -/
+theorem fchan_refines_spec (cap : Nat) (ls : List FCLabel) (s : FCSys)
+    (h : FCSys.run handTable cap FCSys.init ls = some s)
+    (hq : s.f.mpc = .atSelect ∨ s.f.mpc = .inRead ∨ s.f.mpc = .done) :
+    ∃ als : List Label,
+      VaxisModel.Lemmas.ParserRefine.noErr (s.recvd ++ s.chan) = (VaxisModel.Lemmas.ParserRunSpec.specLabels {} als).2 ∧
+      s.pend = [] := by
+  obtain ⟨hci, out, h1, h2⟩ := run_proj handTable handTable_timerOk cap ls FCSys.init s (CI_init cap) h
+  have hp : s.pend = [] := by
+    cases hpe : s.pend with
+    | nil => rfl
+    | cons x p =>
+      obtain ⟨b, hb⟩ := hci.pendAt (by rw [hpe]; simp)
+      rcases hq with h | h | h <;> rw [hb] at h <;> cases h
+  obtain ⟨als, b, oa, g1, g2, g3⟩ := VaxisModel.Props.C08Fine.fine_refines_atomic handTable handTable_timerOk _ s.f out h1
+  have hpend := g3 hq
+  have hspec := (VaxisModel.Props.C08Spec.lifecycle_refines_spec als _ oa g1).1
+  refine ⟨als, ?_, hp⟩
+  rw [← hspec, g2, hpend, List.append_nil]
+  have : s.recvd ++ s.chan = out := by
+    have := h2
+    simp only [FCSys.init, List.append_nil, List.nil_append, hp] at this
+    exact this
+  rw [this]
 
 /-- Non-vacuity of `fchan_blocked_callback_holds_mutex`, capacity 2 (the code's), the parser's table:
     `A`, `B` are printed and not received (channel full), a lone ESC, its timer expires, the callback
